@@ -263,7 +263,7 @@ class World:
         self.vipmgr = self.vippools[0]
         self.cidr = self.cidrs[0]
         if len(cidrs) > 1 and prop == 'C14':
-            self.probes['vip_pools_sharing_a_directory'] = len(cidrs)
+            self.probes['runs_with_vip_pools_sharing_a_directory'] = 1
         self.impl = None
         self.watcher = None
         # -- reference
@@ -2146,6 +2146,10 @@ class NetSim(enginemod.Engine):
         'treadmill.runtime.linux._run._unshare_network',
         'treadmill.runtime.linux._finish._cleanup_network (+ '
         '_cleanup_ephemeral_ports, _cleanup_exception_rules)',
+        'one to three VipMgr pools with disjoint CIDRs on ONE vips directory '
+        'and one owners directory (config["extra_pools"]; as '
+        'warpgate.policy_server._init_networks builds them): alloc / free / '
+        'garbage_collect / initialize go through any of them',
         'real directories and symlinks on a private tmpfs tree; per-run '
         'directory layout (config["layout"]): apps/, rules/, endpoints/, the '
         'VipMgr directory, network_svc/, network_svc/vips and '
@@ -2251,6 +2255,10 @@ class NetSim(enginemod.Engine):
                 'a request whose latest reply is an error (after an injected '
                 'netdev/ipset failure) is no longer considered to have been '
                 'told an IP',
+                'VipMgr.initialize is the restart of the user of one pool: it '
+                'is expected to drop every address of that pool\'s CIDR '
+                '(whoever holds it) and nothing else; pools sharing a '
+                'directory have disjoint CIDRs',
                 'ownerless unlink_all (host-service pattern) is an '
                 'administrative release and expected to take effect',
                 'GC oracle under pre-emption: an entry whose holder has '
